@@ -173,6 +173,9 @@ func (m *c16Model) cold(n int, viaGet bool, touched map[int]bool) (ok, det bool)
 			switch {
 			case !m.c.Dev && m.status[f.dep] == stCached:
 			case !m.c.Dev && m.status[f.dep] == stMaybe:
+				// undetermined whether the dependency is cached; if it is not, loading it pulls in its own dependencies
+				touched[f.dep] = true
+				m.cold(f.dep, viaGet, touched)
 				return false, false
 			default:
 				// whatever the outcome further down, the dependency may have been loaded (and cached) on the way
